@@ -9,8 +9,8 @@ CXX=clang++
 COMMON="-O1 -g -std=c++17 -fno-omit-frame-pointer -DGRAPHITE2_VERIF -DGRAPHITE2_NTRACING -DGRAPHITE2_STATIC -DGRAPHITE2_EXPORTING -Wno-deprecated-declarations"
 if [ "$FLAVOUR" = asan ]; then SAN="-fsanitize=address,undefined,float-cast-overflow -fno-sanitize-recover=all"; elif [ "$FLAVOUR" = tsan ]; then SAN="-fsanitize=thread"; else SAN="-DGRSIM_PLAIN=1 -gdwarf-4"; fi
 LIBFLAGS="$COMMON $SAN -fsanitize-coverage=trace-pc-guard -fno-rtti -fno-exceptions -I$REPO/include -I$REPO/src"
-SIMFLAGS="$COMMON $SAN -I$REPO/include -I$REPO/src -I$VERIF/sim"
-[ "$FLAVOUR" = tsan ] && SIMFLAGS="$COMMON -I$REPO/include -I$REPO/src -I$VERIF/sim -DGRSIM_TSAN_BUILD=1"
+SIMFLAGS="$COMMON $SAN -fno-rtti -I$REPO/include -I$REPO/src -I$VERIF/sim"
+[ "$FLAVOUR" = tsan ] && SIMFLAGS="$COMMON -fno-rtti -I$REPO/include -I$REPO/src -I$VERIF/sim -DGRSIM_TSAN_BUILD=1"
 LIBSRC="CmapCache Code Collider Decompressor Face FeatureMap FileFace Font GlyphCache GlyphFace Intervals Justifier NameTable Pass Position Segment Silf Slot Sparse TtfUtil UtfCodec direct_machine gr_char_info gr_face gr_features gr_font gr_logging gr_segment gr_slot json"
 SIMSRC=$(cd $VERIF/sim && ls *.cpp | sed 's/\.cpp$//')
 HASH=$( (echo "$FLAVOUR $LIBFLAGS $SIMFLAGS"; cat $REPO/src/*.cpp $REPO/src/inc/*.h $REPO/include/graphite2/*.h $VERIF/sim/*.cpp $VERIF/sim/*.h) | sha1sum | cut -c1-16)
